@@ -96,7 +96,22 @@ def cases(rng, tier):
             y = [Fraction(int(v * 4)) for v in y]          # counts: held with an integer dtype
             if shape == "affine":
                 shape = "noisy"                             # truncation to integers destroys exact affinity
-        yield {"x": [str(v) for v in x], "y": [str(v) for v in y], "s": s, "shape": shape, "int_y": int_y}
+        c = {"x": [str(v) for v in x], "y": [str(v) for v in y], "s": s, "shape": shape, "int_y": int_y}
+        if rng.random() < 0.4 and shape not in ("level", "twin"):
+            # the function / the smoothing asked of an object with a history: operations of the facade that change the
+            # samples first (the spline is a function of the samples the object holds NOW, whatever was done before)
+            ops = []
+            for _ in range(rng.randint(1, 3)):
+                k = rng.choice(["append_periodic", "append_periodic", "append", "shift_y", "scale_y", "shift_x", "scale_x",
+                                "trend", "repeat", "cut"])
+                ops.append({"append_periodic": ["append", True], "append": ["append", False],
+                            "shift_y": ["shift_y", float(rng.dyadic(-8, 8, 4))],
+                            "scale_y": ["scale_y", float(rng.choice([2, -1, 0.5, 3]))],
+                            "shift_x": ["shift_x", float(rng.dyadic(-8, 8, 4))], "scale_x": ["scale_x", float(rng.choice([2, 0.5, 4]))],
+                            "trend": ["trend", float(rng.choice([1, -2, 0.5, 3]))], "repeat": ["repeat", 2],
+                            "cut": ["cut", 1]}[k])
+            c["prelude"] = ops
+        yield c
 
 
 def request(c):
@@ -135,6 +150,27 @@ def run_impl(c):
             out["y_after_edit"] = [float(v) for v in w2.get()[1]]
             mid = (x[:-1] + x[1:]) / 2
             out["fun0_mid"] = [float(v) for v in Weaver(x, y).to_function()(mid)]
+            if c.get("prelude"):
+                w3 = Weaver(x.copy(), y.copy())
+                for op, a in c["prelude"]:
+                    if op == "append":
+                        w3.append_one_sample(make_periodic=a)
+                    elif op == "trend":
+                        w3.trend(lambda t, a=a: a * t)
+                    elif op == "cut":
+                        if len(w3) >= 8:
+                            w3.truncate_by_index(a, len(w3) - a)
+                    elif op == "repeat":
+                        if len(w3) <= 60:
+                            w3.repeat(a)
+                    else:
+                        getattr(w3, op)(a)
+                px, py = (np.array(v, dtype=float, copy=True) for v in w3.get())
+                out["hist_x"], out["hist_y"] = [float(v) for v in px], [float(v) for v in py]
+                out["hist_fun0"] = [float(v) for v in w3.to_function(0.0)(px)]
+                if c["s"]:
+                    out["hist_fun_s"] = [float(v) for v in w3.to_function(c["s"])(px)]
+                    out["hist_smooth"] = [float(v) for v in w3.smooth(c["s"]).get()[1]]
         except Exception as e:  # noqa
             return {"err": err_kind(e)}
         out["warned"] = any("fp" in str(m.message) or "iter" in str(m.message).lower() or "RuntimeWarning" in str(m.category)
@@ -165,6 +201,13 @@ def compare(c, io, mo):
         if key in io and np.max(np.abs(np.array(io[key]) - np.array(want))) > 1e-7 * scale:
             return (f"{key}: differs from SciPy called with the forwarded triple (x, y, s={s_eff}); "
                     f"max deviation {float(np.max(np.abs(np.array(io[key]) - np.array(want))))}")
+    if "hist_fun_s" in io:
+        hx, hy = np.array(io["hist_x"]), np.array(io["hist_y"])
+        want = scipy_direct(hx, hy, c["s"])
+        hscale = max(1.0, float(np.max(np.abs(hy - np.mean(hy))))) + 1e-7 ** -1 * 256 * 2.3e-16 * float(np.max(np.abs(hy)))
+        for key in ("hist_fun_s", "hist_smooth"):
+            if len(io[key]) != len(want) or np.max(np.abs(np.array(io[key]) - np.array(want))) > 1e-7 * hscale:
+                return (f"{key} after {c['prelude']}: differs from SciPy called with the samples the object held and s={c['s']}")
     return None
 
 
@@ -207,6 +250,20 @@ def oracle(c, io):
             return f"{key}: affine data changed by smoothing"
     if "smooth_x" in io and io["smooth_x"] != x:
         return "smooth changed x"
+    if "hist_fun0" in io:
+        hy = io["hist_y"]
+        hm = sum(hy) / len(hy)
+        hscale = max(1.0, max(abs(v - hm) for v in hy)) + 1e-7 ** -1 * 256 * 2.3e-16 * max(abs(v) for v in hy)
+        bad = [i for i, (a, b) in enumerate(zip(io["hist_fun0"], hy)) if not abs(a - b) <= 1e-7 * hscale]
+        if bad or len(io["hist_fun0"]) != len(hy):
+            i = bad[0] if bad else -1
+            return (f"after {c['prelude']} to_function(0) does not pass through the samples the object holds: at sample {i} of "
+                    f"{len(hy)} it gives {io['hist_fun0'][i]!r}, the series has {hy[i]!r}")
+        if "hist_fun_s" in io:
+            for key in ("hist_fun_s", "hist_smooth"):
+                dev = sum((a - b) ** 2 for a, b in zip(io[key], hy))
+                if len(io[key]) != len(hy) or dev > c["s"] * (1 + 1e-3) + 1e-9 * hscale * hscale:
+                    return f"{key} after {c['prelude']}: summed squared deviation {dev} exceeds the smoothing condition s={c['s']}"
     return None
 
 
